@@ -321,7 +321,11 @@ def dec(t, buf, pos=0):
         b, pos = _take(buf, pos, t["size"], "fixedstr.data")
         return b[:n].decode("latin-1"), pos
     if k == "structtag":
-        raw, pos = _take(buf, pos, t["size"], "structtag")
+        if pos >= len(buf):
+            raise RefShort(True, "structtag")
+        raw = buf[pos:pos + t["size"]]
+        short = len(raw) < t["size"]
+        pos += len(raw)
         vals = {}
         private = set(t.get("private", ()))
         for name, mt, off in t["members"]:
@@ -329,8 +333,12 @@ def dec(t, buf, pos=0):
             if name not in private:
                 vals[name] = x
         for name, (off, bit) in t["bits"].items():
+            if off >= len(raw):
+                raise RefShort(None, "structtag.bit")
             if name not in private:
                 vals[name] = bool(raw[off] >> bit & 1)
+        if short:  # every member was present; only trailing padding is missing
+            raise RefShort(None, "structtag.padding")
         return vals, pos
     raise KeyError(k)
 
